@@ -32,7 +32,13 @@ RD = {
     "DS": dns.rdata.from_text("IN", "DS", "1 8 2 " + "00" * 32),
     "SOA": dns.rdata.from_text("IN", "SOA", "m. r. 1 2 3 4 5"),
     "CNAME": dns.rdata.from_text("IN", "CNAME", "t.other."),
+    # dns.node: a signature covering CNAME is CNAME-kind too (it displaces regular data, NS included);
+    # NSEC is neutral (coexists with either kind)
+    "RRSIG-CNAME": dns.rdata.from_text("IN", "RRSIG", "CNAME 8 2 10 20300101000000 20200101000000 1 example. AAAA"),
+    "NSEC": dns.rdata.from_text("IN", "NSEC", "z.example. A"),
 }
+CNAME_KIND = {"CNAME", "RRSIG-CNAME"}
+NEUTRAL_KIND = {"NSEC"}
 
 
 def absname(key):
@@ -126,7 +132,10 @@ def apply_op(txn, op, form):
     elif verb == "replace":
         txn.replace(name, 10, RD[op[2]])
     elif verb == "del":
-        txn.delete(name, op[2])
+        if op[2] == "RRSIG-CNAME":
+            txn.delete(name, dns.rdatatype.RRSIG, dns.rdatatype.CNAME)
+        else:
+            txn.delete(name, op[2])
     elif verb == "delnode":
         txn.delete(name)
     else:
@@ -139,10 +148,10 @@ def model_apply(content, op):
     if verb in ("add", "replace"):
         # CNAME and other (regular) data exclude each other at a node (dns.node): the newer wins
         cur = content.setdefault(n, set())
-        if op[2] == "CNAME":
-            cur.clear()
-        else:
-            cur.discard("CNAME")
+        if op[2] in CNAME_KIND:
+            cur.difference_update({t for t in cur if t not in CNAME_KIND and t not in NEUTRAL_KIND})
+        elif op[2] not in NEUTRAL_KIND:
+            cur.difference_update(CNAME_KIND)
         cur.add(op[2])
     elif verb == "del":
         if n in content:
@@ -161,7 +170,8 @@ def real_state(z):
     for name, node in v.nodes.items():
         n = name.derelativize(ORIGIN)
         order.append(n)
-        content[n] = {dns.rdatatype.to_text(r.rdtype) for r in node.rdatasets}
+        content[n] = {dns.rdatatype.to_text(r.rdtype) + ("-" + dns.rdatatype.to_text(r.covers) if r.covers else "")
+                      for r in node.rdatasets}
         flags[n] = int(node.flags)
     dele = {n.derelativize(ORIGIN) for n in v.delegations}
     return content, flags, dele, order
@@ -350,6 +360,10 @@ def single_ops():
     ops.append(("add", "a", "CNAME"))
     ops.append(("replace", "_d", "CNAME"))
     ops.append(("add", "b.a", "CNAME"))
+    ops.append(("add", "a", "RRSIG-CNAME"))
+    ops.append(("del", "a", "RRSIG-CNAME"))
+    ops.append(("add", "_d", "RRSIG-CNAME"))
+    ops.append(("add", "a", "NSEC"))
     ops.append(("add", "a", "DS"))
     ops.append(("del", "a", "DS"))
     ops.append(("replace", "b.a", "NS"))
